@@ -160,6 +160,19 @@ func (g *c18gen) nest() {
 		g.both("{{end}}")
 	case 1:
 		g.feat["in-range"] = true
+		if g.r.Intn(2) == 0 {
+			// loop variables of a range over []interface{} / map[string]interface{}: Resolve is identifier lookup, also for
+			// the kind of value it hands back (asked right at the start of the body, in the scope the range opened)
+			g.feat["resolve-loop-var"] = true
+			g.n++
+			kv, vv := fmt.Sprintf("rk%d", g.n), fmt.Sprintf("rv%d", g.n)
+			g.both(fmt.Sprintf("{{range %s, %s := %s}}", kv, vv, []string{"ifs", "ifm"}[g.r.Intn(2)]))
+			g.a.WriteString(fmt.Sprintf("[kind:{{ resolvekind(%q) }}={{ resolve(%q) }}]", vv, vv))
+			g.b.WriteString(fmt.Sprintf("[kind:{{ kindof(%s) }}={{ %s }}]", vv, vv))
+			g.list()
+			g.both("{{end}}")
+			break
+		}
 		g.both(fmt.Sprintf("{{range k%d := ints(0, 2)}}", g.n))
 		g.list()
 		g.both("{{end}}")
@@ -228,6 +241,12 @@ func c18vars(log *[]string, empty bool) jet.VarMap {
 	vars.SetFunc("letglobal", func(a jet.Arguments) reflect.Value { a.Runtime().LetGlobal(str(a, 0), str(a, 1)); return none })
 	vars.SetFunc("resolve", func(a jet.Arguments) reflect.Value { return a.Runtime().Resolve(str(a, 0)) })
 	vars.SetFunc("ctx", func(a jet.Arguments) reflect.Value { return a.Runtime().Context() })
+	vars.SetFunc("resolvekind", func(a jet.Arguments) reflect.Value {
+		return reflect.ValueOf(a.Runtime().Resolve(str(a, 0)).Kind().String())
+	})
+	vars.SetFunc("kindof", func(a jet.Arguments) reflect.Value { return reflect.ValueOf(a.Get(0).Kind().String()) })
+	vars.Set("ifs", []interface{}{"ia", 7})
+	vars.Set("ifm", map[string]interface{}{"only": "mv"})
 	vars.SetFunc("yieldblock", func(a jet.Arguments) reflect.Value {
 		var ctx interface{}
 		if v := a.Get(1); v.IsValid() {
@@ -287,7 +306,7 @@ func c18run(c *fw.Ctx, idx int) {
 	c.Eval(2)
 	c.Count("twins", 1)
 	var feats []string
-	for _, k := range []string{"let-nil", "let", "set", "set-undeclared", "setorlet", "resolve", "context", "yieldblock", "yieldblock-ctx", "letglobal", "in-if", "in-range", "in-block", "in-include", "in-try", "below-content"} {
+	for _, k := range []string{"let-nil", "let", "set", "set-undeclared", "setorlet", "resolve", "context", "yieldblock", "yieldblock-ctx", "letglobal", "in-if", "in-range", "in-block", "in-include", "in-try", "below-content", "resolve-loop-var"} {
 		if g.feat[k] {
 			feats = append(feats, k)
 			c.Count("feature:"+k, 1)
@@ -451,6 +470,52 @@ func c18args(c *fw.Ctx, idx int, r *rand.Rand) {
 		if gs.Failed() || gs.Out != string(want) {
 			c.Violation("c18:args:IsSet-positions:slot", "", fmt.Sprintf("%s: IsSet(-1..%d) = %s, want %s (argument %d is an unknown identifier, argument %d is the piped value)", src, n, gs, want, k, p))
 			return
+		}
+	}
+	// a first argument that evaluates to no value at all (nil literal, absent map key) keeps its position however it is handed over
+	{
+		inv := []string{"nil", "m.zz"}[r.Intn(2)]
+		rest := args[1:]
+		tail := strings.Join(rest, ", ")
+		plain := "JX(" + strings.Join(append([]string{inv}, rest...), ", ") + ")"
+		alts := map[string]string{"piped-call": inv + " | JX(" + tail + ")", "slot0": inv + " | JX(" + strings.Join(append([]string{"_"}, rest...), ", ") + ")"}
+		if len(rest) > 0 {
+			alts["piped-prefix"] = inv + " | JX: " + tail
+		} else {
+			alts["piped-bare"] = inv + " | JX"
+		}
+		vars := func() jet.VarMap {
+			v := mk()
+			v.SetFunc("JX", func(a jet.Arguments) reflect.Value {
+				out := fmt.Sprintf("n=%d", a.NumOfArguments())
+				for i := 0; i < a.NumOfArguments(); i++ {
+					g := a.Get(i)
+					switch {
+					case !g.IsValid():
+						out += fmt.Sprintf(";%d:<none>", i) // (IsSet of a nil literal is judged on the expression, of a piped nil on the value: not compared)
+					default:
+						out += fmt.Sprintf(";%d:%v set=%v", i, g.Interface(), a.IsSet(i))
+					}
+				}
+				return reflect.ValueOf(out)
+			})
+			return v
+		}
+		files := func(src string) map[string]string {
+			return map[string]string{"/t.jet": "{{ " + src + " }}", "/pipe.jet": `{{ "Q" | lower }}{{ return "ret" }}`}
+		}
+		ref := jx.Run(files(plain), "/t.jet", vars(), nil, jx.NoEscape)
+		c.Eval(1)
+		if !ref.Failed() {
+			for name, src := range alts {
+				got := jx.Run(files(src), "/t.jet", vars(), nil, jx.NoEscape)
+				c.Eval(1)
+				c.Count("invalid_first_argument_forms", 1)
+				if got.Failed() || got.Out != ref.Out {
+					c.Violation("c18:args:invalid-value-position:"+name, "", fmt.Sprintf("%s presents %s; the plain call %s presents %q", src, got, plain, ref.Out))
+					return
+				}
+			}
 		}
 	}
 	c.Count("argument_shapes", len(forms))
